@@ -79,6 +79,25 @@ CHECKS = [
      "(600k strings, 6.8M observations): ipv4 / ipv6 / date / email agree with hand-written recognisers, regex agrees with "
      "re.compile, and for every registered format conforms() returns a bool and check() raises only FormatError.",
      "recognisers in mc/ref/formats.py written from the RFCs (own selftest); idn-hostname and draft-3 time never-raises only; one open known finding (year 0000)", "5 C13"),
+    ("C15", "model_checking", "explicit-state exploration of resolution/validation histories x cache configurations x handler faults vs. a fetch-count/availability model (result and exact handler call log)",
+     "Every history (un-merged depth 3/4, merged by canonical state to 4/6, <= 2 handler-failure deviations) of validations "
+     "and direct resolutions on one resolver, for each of {cache_remote on, off} x {default lru, pass-through, lru_cache(1)}: "
+     "the result and the exact handler call log equal the model's prediction; at most one successful fetch per document "
+     "with caching on; the store never grows with caching off; failures surface as RefResolutionError only; metaschema and "
+     "store documents never cause a retrieval; urlopen/requests are never touched.",
+     "evaluation order of references inside a validation is taken from a traced all-available run; model mirrors the documented cache semantics", "5 C15"),
+    ("C16", "model_checking", "explicit-state exploration of derivation histories; every live object re-probed against a persistent-map model",
+     "All sequences (depth 3 / 4) of 24 derivation operations on type checkers, validator classes and format checkers; after "
+     "each history every object in existence (14 initial + derived) shows exactly the probe vector predicted at its "
+     "creation (extend(cls) == cls incl. id lookup; an overridden/added keyword changes only its own probes; class-wide "
+     "format registration affects only later FormatChecker objects); global registries restored and re-verified.",
+     "probe battery is finite (is_type 9x12, 10 validation probes, conforms 10x6)", "5 C16"),
+    ("C18", "model_checking", "all interleavings of iterator steps (stateless enumeration) + preemption-bounded DFS over real threads under a sys.settrace baton scheduler",
+     "Validators colliding on base URI, reference strings, remote URLs (store- and handler-served), regexes and format "
+     "names: every interleaving of next()/close() steps of 2-3 iterators, and every schedule with <= 2 preemptions of 2-3 "
+     "validating threads (call granularity; line granularity bound 1), gives each consumer exactly the errors of the "
+     "reference-free equivalent schema and leaves its resolver's scope untouched.",
+     "preemption at Python call/line boundaries only; GIL-atomic container operations assumed", "5 C18"),
 ]
 
 
